@@ -386,6 +386,11 @@ def window_rule(F, R):
             good = True
         if from_ring and d.startswith('std::option::Option::<T>::unwrap_or_default('):
             good = True
+        from ..paths import parse_term
+        nm_, ar_ = parse_term(d.replace(ZERO, 'ZERO'))
+        if from_ring and ar_ and nm_.split('::')[-1] in ('unwrap_or', 'map_or', 'unwrap_or_default') and \
+                all(('Iterator>::next' in a and a.count('Iterator>::next') == 1) or a == 'ZERO' or a.startswith('closure') for a in ar_):
+            good = True       # next().map_or(ZERO, |entry| entry.frame) and relatives
         if from_ring and d.rstrip(')').endswith('.frame') and 'unwrap_or' not in d:
             good = True       # the frame of a buffered entry (`Some(entry) => entry.frame`, or zipped with the window)
         if d == ZERO:
